@@ -440,6 +440,24 @@ func ScalarSpecials() []V {
 			add(addI(l, 1), "lambda±1")
 			add(addI(l, -1), "lambda±1")
 
+			// scalars whose binary PREFIX is one of these: a left-to-right ladder holds (jP, (j+1)P) for every prefix j
+			// of k, and for j or j+1 in {λ, λ^2, -λ, -λ^2, (n-1)/2, (n-1)/3, ...} the two registers are related by the
+			// endomorphism or a negation (same y, opposite y, same x): exceptional for incomplete addition laws
+			half := new(big.Int).Rsh(n, 1)
+			third := new(big.Int).Div(new(big.Int).Sub(n, big.NewInt(1)), big.NewInt(3))
+
+			for _, s0 := range []*big.Int{l, l2, new(big.Int).Sub(n, l), new(big.Int).Sub(n, l2), half, third, new(big.Int).Lsh(third, 1)} {
+				for _, d := range []int64{-1, 0} {
+					j := addI(s0, d)
+					for _, sh := range []uint{1, 2, 3, 9} {
+						hi := new(big.Int).Lsh(j, sh)
+						for _, low := range []*big.Int{new(big.Int), big.NewInt(1), addI(pow2(int(sh)), -1)} {
+							add(new(big.Int).Add(hi, low), "ladder-prefix")
+						}
+					}
+				}
+			}
+
 			break
 		}
 	}
